@@ -226,9 +226,51 @@ type c06In struct {
 // c06Judge measures one input with a pool worker and returns a violation
 // message (or ""), restarting the worker if it died. infra != "" means the
 // harness itself is in trouble.
-type c06Pool struct {
-	p *c06Proc
+type c06Step struct {
+	Family string `json:"family"`
+	Data   hx     `json:"input_hex"`
 }
+
+type c06Pool struct {
+	p      *c06Proc
+	recent []c06Step // what the current worker has been fed most recently
+	// seq is set when a violation only shows after earlier inputs
+	seq []c06Step
+}
+
+func (pl *c06Pool) remember(fam string, data []byte) {
+	pl.recent = append(pl.recent, c06Step{fam, append([]byte{}, data...)})
+	if len(pl.recent) > 6 {
+		pl.recent = pl.recent[len(pl.recent)-6:]
+	}
+}
+
+// replaySequence feeds steps to a fresh worker; true if the last one hangs or
+// kills it.
+func c06SequenceHangs(steps []c06Step) (bool, string) {
+	p, err := c06Start()
+	if err != nil {
+		return false, ""
+	}
+	defer p.stop()
+	for i, s := range steps {
+		r := p.measure(s.Family, -1, s.Data)
+		if r.Died {
+			if i == len(steps)-1 && (r.TimedOut || r.OOM) {
+				return true, fmt.Sprintf("timedOut=%v oom=%v", r.TimedOut, r.OOM)
+			}
+			return false, ""
+		}
+	}
+	return false, ""
+}
+
+var c06SeqKind = registerKind("c06seq", func(steps []c06Step) string {
+	if hangs, how := c06SequenceHangs(steps); hangs {
+		return fmt.Sprintf("after %d earlier (returning) decode calls, decoding the last input does not return / kills the process (%s)", len(steps)-1, how)
+	}
+	return ""
+})
 
 func (pl *c06Pool) get() (*c06Proc, error) {
 	if pl.p == nil {
@@ -253,13 +295,16 @@ func (pl *c06Pool) judge(fam string, data []byte) (violation string, entry strin
 	if err != nil {
 		return "", "", "cannot start worker: " + err.Error(), res
 	}
+	before := append([]c06Step{}, pl.recent...)
 	res = p.measure(fam, -1, data)
+	pl.remember(fam, data)
 	eps := entriesOf(fam)
 	if !res.Died && res.Alloc <= c06Bound(len(data)) && res.Wall <= c06MaxWall {
 		return "", "", "", res
 	}
 	if res.Died {
 		pl.drop()
+		pl.recent = nil
 	}
 	// attribute to single entry points, each in a fresh measurement
 	for i, e := range eps {
@@ -320,6 +365,19 @@ func (pl *c06Pool) judge(fam string, data []byte) (violation string, entry strin
 	}
 	if res.Died && !res.OOM && !res.TimedOut {
 		return "", "", "worker died on the batch but on no single entry point: " + firstLines(res.Stderr, 8), res
+	}
+	if res.Died {
+		// alone, in a fresh process, the input is fine: does it hang / die
+		// only after the inputs the worker had been given before?
+		steps := append(before, c06Step{fam, append([]byte{}, data...)})
+		for attempt := 0; attempt < 2; attempt++ {
+			if hangs, how := c06SequenceHangs(steps); hangs {
+				pl.seq = steps
+				return fmt.Sprintf("decoding a %d-byte input does not return / kills the process (%s) when it follows %d earlier decode calls that all returned: state left behind by an earlier call", len(data), how, len(steps)-1), "(sequence)", "", res
+			} else if attempt == 1 {
+				return "", "", "worker timed out on a batch, but neither a single entry point nor the replayed sequence reproduces it", res
+			}
+		}
 	}
 	// the batch as a whole exceeded the per-call bound but no single entry
 	// point did: fine.
@@ -621,6 +679,31 @@ func tagWrapped() []c06Placed {
 	return r
 }
 
+func conflictDocs() []c06Placed {
+	var r []c06Placed
+	body := modelJN(baseValid(P2, 0))
+	mk := func(kv ...string) []byte {
+		o := body.clone()
+		for i := 0; i+1 < len(kv); i += 2 {
+			o.keys = append(o.keys, kv[i])
+			o.vals = append(o.vals, jStr(kv[i+1]))
+		}
+		return []byte(o.String())
+	}
+	r = append(r,
+		c06Placed{"json", "json/two matching profiles", mk("psa-profile", P1Name, "eat-profile", P2Name)},
+		c06Placed{"json", "json/unknown profile", mk("eat-profile", "http://example.com/unknown")},
+		c06Placed{"json", "json/profile of wrong type", []byte(`{"eat-profile":5}`)},
+		c06Placed{"json", "json/not an object", []byte(`[1,2]`)},
+		c06Placed{"enc-json", "json/duplicate member", []byte(`{"a":1,"a":2,"c":"AQI=","d":3}`)},
+		c06Placed{"cbor", "cbor/unknown profile", icbor.Encode(icbor.Map(icbor.P(icbor.U(265), icbor.Tstr("http://example.com/unknown"))))},
+		c06Placed{"cbor", "cbor/profile of wrong type", icbor.Encode(icbor.Map(icbor.P(icbor.U(265), icbor.U(5))))},
+		c06Placed{"enc-cbor", "cbor/duplicate key", []byte{0xa2, 0x01, 0x00, 0x01, 0x00}},
+		c06Placed{"cose", "cose/mac0", []byte{0xd1, 0x84, 0x40, 0xa0, 0x40, 0x40}},
+	)
+	return r
+}
+
 func c06NonTrivial(fam string, data []byte) bool {
 	if len(data) >= 4096 {
 		return true
@@ -683,10 +766,19 @@ func c06RunOne(t interface{ Fatalf(string, ...any) }, st *Stats, pl *c06Pool, fa
 	return "", in
 }
 
+// c06Report reports a violation with the right replay kind.
+func c06Report(t testing.TB, pl *c06Pool, v string, in c06In) {
+	if in.Entry == "(sequence)" && pl.seq != nil {
+		reportCase(t, "C06", "c06seq", pl.seq, v+"\n  "+in.Desc)
+		return
+	}
+	reportCase(t, "C06", "c06", in, v+"\n  via "+in.Entry+"; "+in.Desc)
+}
+
 func TestC06_Bombs(t *testing.T) {
 	st := NewStats("C06", "TestC06_Bombs", "enumeration, measured in an address-space-limited single-goroutine worker process (TotalAlloc delta and wall time per input): header bombs = every major type 2..6 x additional-info 24..27 x declared length in {0x80,0xff,2^8,2^16-1,2^16,2^24,2^31,2^32-1,2^32,2^63,2^64-1} x 0..16 following bytes, placed at top level and at every structural position of a valid token of both profiles (5 claim values, a component field, an unknown key's value, COSE payload / protected / unprotected / signature / tag content / protected-header content / unprotected-header value); nesting of arrays, maps, tags, indefinite containers to depth 8..32000 and JSON arrays/objects to depth 8..65536 (closed and unclosed, top level and inside claims); 4 KiB..60 KiB strings, 1000..16000-key maps (distinct and duplicate keys), 700-component and 60000-null component lists; every 1- and 2-byte input that starts with a tag head and valid documents wrapped 1..3 deep in 42 tag numbers of every head width (termination of the hand-written tag skipping). Every input goes to every entry point of its family (COSE, claims CBOR incl. per-type unmarshal and extension types, claims JSON, populate helpers). Violation: a call allocates more than 1 MiB + 1 KiB per input byte, or takes > 5 s (re-measured in 3 fresh processes), or the worker dies with an out-of-memory fatal error. Non-trivial = declares more data than it carries, or nests >= 8 deep, or >= 4 KiB; distinct = family + input")
 	st.Exhaustive = true
-	st.Require = []string{"bomb", "nesting", "big", "tag-wrapped", "family=cbor", "family=cose", "family=json", "family=enc-cbor", "family=enc-json"}
+	st.Require = []string{"bomb", "nesting", "big", "tag-wrapped", "error-path", "family=cbor", "family=cose", "family=json", "family=enc-cbor", "family=enc-json"}
 	defer st.Flush(t)
 	pl := &c06Pool{}
 	defer pl.drop()
@@ -698,7 +790,7 @@ func TestC06_Bombs(t *testing.T) {
 			return
 		}
 		if v, in := c06RunOne(t, st, pl, p.fam, p.desc, p.data, class); v != "" {
-			reportCase(t, "C06", "c06", in, v+"\n  via "+in.Entry+"; "+in.Desc)
+			c06Report(t, pl, v, in)
 		}
 	}
 	for _, b := range headerBombs() {
@@ -714,6 +806,15 @@ func TestC06_Bombs(t *testing.T) {
 	}
 	for _, p := range tagWrapped() {
 		run(p, "tag-wrapped")
+	}
+	// documents on the decoders' error paths, each followed by ordinary ones
+	// (a call that fails must not leave anything behind that blocks later calls)
+	good := c05JSONBases()[0].doc
+	goodC := baseValid(P2, 1).WireBytes()
+	for _, cd := range conflictDocs() {
+		run(cd, "error-path")
+		run(c06Placed{"json", "ordinary document after " + cd.desc, good}, "error-path")
+		run(c06Placed{"cbor", "ordinary token after " + cd.desc, goodC}, "error-path")
 	}
 	cv, ev, jv := c05Vectors()
 	for _, v := range cv {
